@@ -699,6 +699,22 @@ class SourceGenerator(NodeVisitor):
         self.visit(node.orelse)
         self.write(")")
 
+    def visit_NamedExpr(self, node):
+        self.write("(")
+        self.visit(node.target)
+        self.write(" := ")
+        self.visit(node.value)
+        self.write(")")
+
+    def visit_JoinedStr(self, node):
+        # an f-string is re-emitted by the standard library (Python 3.9+)
+        import ast
+
+        if hasattr(ast, "unparse"):
+            self.write(ast.unparse(node))
+        else:
+            self.generic_visit(node)
+
     def visit_Starred(self, node):
         self.write("*")
         self.visit(node.value)
